@@ -18,7 +18,7 @@ PROPERTY = 'C20'
 LEVEL = 'exploration'
 
 RATES = [1e3, 48e3, 7e5, 1.1e6, 3e9, 2.4e9 / 7]
-BRANCHES = [8, 48, 64, 1024]
+BRANCHES = [8, 15, 48, 64, 1024]          # 15: an odd number of branches (7 coarse channels) is admitted by the constructor
 TAPS = [2, 4, 8]
 SPB_MULT = [1, 2, 3, 13, 125]
 
